@@ -604,7 +604,7 @@ class WelfordInvariant:
         env.vars["m"], env.vars["v"] = ml, vl
 
 
-@script(["C13", "C05", "C11"], "welford_mean_var/post")
+@script(["C13", "C05", "C11", "C10"], "welford_mean_var/post")
 def welford_post(S, I, variant):
     n = S.length("n", lo=1)
     u = S.real("u", lo_strict=0)
@@ -848,12 +848,12 @@ def rel_native(method, finiteN, arrname, abstract_role=None, parname=None, attrs
     return d
 
 
-@script(["C05", "C01"], "NonnegMean.alpha_mart/non-anticipation", variants=(("finiteN", "NA1"), ("infN", "NA1"), ("finiteN", "NA2"), ("infN", "NA2")))
+@script(["C05", "C01", "C10"], "NonnegMean.alpha_mart/non-anticipation", variants=(("finiteN", "NA1"), ("infN", "NA1"), ("finiteN", "NA2"), ("infN", "NA2")))
 def alpha_na(S, I, variant):
     mart_na(S, I, "alpha", variant[0] == "finiteN", variant[1] == "NA2")
 
 
-@script(["C05", "C01"], "NonnegMean.betting_mart/non-anticipation", variants=(("finiteN", "NA1"), ("infN", "NA1"), ("finiteN", "NA2"), ("infN", "NA2")))
+@script(["C05", "C01", "C10"], "NonnegMean.betting_mart/non-anticipation", variants=(("finiteN", "NA1"), ("infN", "NA1"), ("finiteN", "NA2"), ("infN", "NA2")))
 def betting_na(S, I, variant):
     mart_na(S, I, "betting", variant[0] == "finiteN", variant[1] == "NA2")
 
@@ -1060,7 +1060,7 @@ def shrink_post(S, I, variant):
                 carve=xcmp(">=", mu, cap), props=["C13", "C01"])
 
 
-@script(["C05", "C01"], "NonnegMean.shrink_trunc/predictable", variants=(("finiteN",), ("infN",)))
+@script(["C05", "C01", "C10"], "NonnegMean.shrink_trunc/predictable", variants=(("finiteN",), ("infN",)))
 def shrink_na(S, I, variant):
     finiteN = variant[0] == "finiteN"
     install_contracts(I)
@@ -1170,7 +1170,7 @@ def agrapa_post(S, I, variant):
                 props=["C13", "C11", "C01"])
 
 
-@script(["C05", "C01"], "NonnegMean.agrapa/predictable", variants=(("finiteN",), ("infN",)))
+@script(["C05", "C01", "C10"], "NonnegMean.agrapa/predictable", variants=(("finiteN",), ("infN",)))
 def agrapa_na(S, I, variant):
     finiteN = variant[0] == "finiteN"
     install_welford(I)
